@@ -165,7 +165,7 @@ pub fn run(ctx: &Ctx) -> i32 {
         explore(ctx, "EL layered T=3 values {0,1,2,4}", Layered { slots: el_slots(3, &[0, 100, 200, 400], false), bases: alpha::bases(false) }, C12, shared.clone());
     }
     explore(ctx, "TINY: values around the absolute thresholds of the code (1e-3, 0.01 kWh), depth<=4", Wide { alphabet: alpha::tiny_letters(), bases: alpha::bases(false), max_add: 4, repeat: false }, C12, shared.clone());
-    explore(ctx, "LONG: complete buildings with 13, 24 and 8760 steps", Wide { alphabet: vec![], bases: alpha::long_bases(), max_add: 0, repeat: false }, C12, shared.clone());
+    explore(ctx, "LONG: complete buildings with 13, 24, 31, 52, 365 and 8760 steps", Wide { alphabet: vec![], bases: alpha::long_bases(), max_add: 0, repeat: false }, C12, shared.clone());
     explore(ctx, "seeded: shipped files + <=2 lines", Wide { alphabet: alpha::seeded_letters(), bases: alpha::shipped_bases(), max_add: if ctx.quick() { 1 } else { 2 }, repeat: false }, C12, shared.clone());
     let mut req = vec![];
     for lm in ["lm", "nolm"] {
